@@ -488,6 +488,69 @@ pub fn run(prop: &str, tier: &str, replay: Option<&str>) -> i32 {
         });
         rep.add(sec);
     }
+    {
+        // name-constraint lists of two subtrees that are related (equal, nested in either order, disjoint, of two forms), in
+        // one list or split over the two lists, on the root or the intermediate, against leaf names inside / outside each:
+        // every listed subtree is enforced whatever else the list holds and wherever it stands
+        let subs: Vec<(&str, SubtreeSpec)> = vec![
+            ("dns example.com", SubtreeSpec::Dns("example.com".into())),
+            ("dns host.example.com", SubtreeSpec::Dns("host.example.com".into())),
+            ("dns .example.com", SubtreeSpec::Dns(".example.com".into())),
+            ("dns other.org", SubtreeSpec::Dns("other.org".into())),
+            ("10.0.0.0/8", cidr(vec![10, 0, 0, 0], 8)),
+            ("10.0.0.0/16", cidr(vec![10, 0, 0, 0], 16)),
+            ("10.1.0.0/16", cidr(vec![10, 1, 0, 0], 16)),
+            ("10.1.2.0/24", cidr(vec![10, 1, 2, 0], 24)),
+            ("11.0.0.0/8", cidr(vec![11, 0, 0, 0], 8)),
+            ("fd00::/8", cidr(fd00(), 8)),
+            ("fd00::/16", cidr(fd00(), 16)),
+        ];
+        let fd = |b1: u8| {
+            let mut v = fd00();
+            v[1] = b1;
+            v[15] = 1;
+            v
+        };
+        let leaves: Vec<(&str, Vec<SanSpec>)> = vec![
+            ("example.com", vec![SanSpec::Dns("example.com".into())]),
+            ("host.example.com", vec![SanSpec::Dns("host.example.com".into())]),
+            ("a.host.example.com", vec![SanSpec::Dns("a.host.example.com".into())]),
+            ("other.org", vec![SanSpec::Dns("other.org".into())]),
+            ("10.0.9.9", vec![SanSpec::Ip(vec![10, 0, 9, 9])]),
+            ("10.1.2.3", vec![SanSpec::Ip(vec![10, 1, 2, 3])]),
+            ("10.1.9.9", vec![SanSpec::Ip(vec![10, 1, 9, 9])]),
+            ("10.200.0.1", vec![SanSpec::Ip(vec![10, 200, 0, 1])]),
+            ("11.0.0.1", vec![SanSpec::Ip(vec![11, 0, 0, 1])]),
+            ("fd00::1", vec![SanSpec::Ip(fd(0))]),
+            ("fd7f::1", vec![SanSpec::Ip(fd(0x7f))]),
+        ];
+        // placement: 0 both permitted, 1 both excluded, 2 first permitted + second excluded
+        let mut cases: Vec<(usize, usize, u8, usize, usize)> = Vec::new();
+        for a in 0..subs.len() {
+            for b in 0..subs.len() {
+                for placement in 0..3u8 {
+                    for at in 0..2usize {
+                        for l in 0..leaves.len() {
+                            cases.push((a, b, placement, at, l));
+                        }
+                    }
+                }
+            }
+        }
+        let sec = Section::new("product/name-constraint pairs", "complete product: ordered pairs over 11 subtrees (4 DNS, 5 IPv4 incl. nested with the same and with another base, 2 IPv6) x {both permitted, both excluded, one permitted + one excluded} x {root, intermediate} x 11 leaf names").with_deadline(cap);
+        run::sweep_cases(&sec, &cases, &|c| format!("[{} , {}] placement#{} on issuer #{} leaf {}", subs[c.0].0, subs[c.1].0, c.2, c.3, leaves[c.4].0), &|c| {
+            let mut ch = ChainSpec::base();
+            let (a, b) = (subs[c.0].1.clone(), subs[c.1].1.clone());
+            ch.cas[c.3].nc = Some(match c.2 {
+                0 => NcSpec { permitted: vec![a, b], excluded: vec![] },
+                1 => NcSpec { permitted: vec![], excluded: vec![a, b] },
+                _ => NcSpec { permitted: vec![a], excluded: vec![b] },
+            });
+            ch.leaf_sans = leaves[c.4].1.clone();
+            judge(&ch, &pool)
+        });
+        rep.add(sec);
+    }
     run::finish(rep)
 }
 
